@@ -264,8 +264,8 @@ fn conv_job(conv: Conv, len: usize) -> Job {
 
 pub fn plan(tier: Tier) -> Plan {
   let len = match tier {
-    Tier::Quick => 7,
-    Tier::Thorough => 9,
+    Tier::Quick => 8,
+    Tier::Thorough => 10,
   };
   let mut jobs = vec![];
   for c in [Conv::ToFuture, Conv::CollectToFuture, Conv::ToStream, Conv::Status] {
